@@ -381,6 +381,9 @@ class TestcaseSymbol(Testcase):
             before: Split file before these delimiters.
             after: Split file after these delimiters.
         """
+        # the delimiters are plain bytes, not character class syntax
+        before = re.escape(before)
+        after = re.escape(after)
         self._cutter = re.compile(
             b"["
             + before
